@@ -75,15 +75,21 @@ def decChunks (s : String) : Option (List (Chunk String)) :=
       pure ⟨a, b, l⟩
     | _ => none
 
-/-- Rust's `str::lines`: split at `\n`, drop one trailing `\r` of each piece, no final empty piece. -/
+/-- Rust's `str::lines`: pieces of `split_inclusive('\n')`; a piece that ends in `\n` loses it and
+then one `\r` before it; a final piece without `\n` is kept as is (a bare `\r` stays). -/
 def rustLines (s : String) : List String :=
   let parts := s.splitOn "\n"
-  let parts := match parts.reverse with
-    | "" :: r => r.reverse
-    | _ => parts
-  parts.map fun p => if p.endsWith "\r" then (p.dropEnd 1).toString else p
+  let n := parts.length
+  let body := (parts.take (n - 1)).map fun p => if p.endsWith "\r" then (p.dropEnd 1).toString else p
+  match parts.drop (n - 1) with
+  | [""] => body
+  | last => body ++ last
 
-def isWs (c : Char) : Bool := c == ' ' || c == '\t' || c == '\n' || c == '\r' || c == '\x0b' || c == '\x0c'
+/-- `char::is_whitespace` (Unicode White_Space), as used by `split_whitespace` -/
+def isWs (c : Char) : Bool :=
+  let n := c.toNat
+  (9 ≤ n && n ≤ 13) || n == 0x20 || n == 0x85 || n == 0xA0 || n == 0x1680 ||
+  (0x2000 ≤ n && n ≤ 0x200A) || n == 0x2028 || n == 0x2029 || n == 0x202F || n == 0x205F || n == 0x3000
 
 def splitWs (cs : List Char) : List (List Char) :=
   let rec go : List Char → List Char → List (List Char)
